@@ -509,18 +509,21 @@ def apply_hints(body, hints):
 
 
 _RULE_MODS = None
+_RULE_LOCK = __import__('threading').Lock()
 
 
 def find_rule(name):
     """Rules live in vx/rules.py and vx/rules_*.py (one file per unit family)."""
     global _RULE_MODS
-    if _RULE_MODS is None:
-        import glob
-        import importlib
-        here = os.path.dirname(os.path.abspath(__file__))
-        _RULE_MODS = []
-        for f in sorted(glob.glob(os.path.join(here, 'rules*.py'))):
-            _RULE_MODS.append(importlib.import_module(os.path.basename(f)[:-3]))
+    with _RULE_LOCK:
+        if _RULE_MODS is None:
+            import glob
+            import importlib
+            here = os.path.dirname(os.path.abspath(__file__))
+            mods = []
+            for f in sorted(glob.glob(os.path.join(here, 'rules*.py'))):
+                mods.append(importlib.import_module(os.path.basename(f)[:-3]))
+            _RULE_MODS = mods
     for m in _RULE_MODS:
         fn = getattr(m, name, None)
         if callable(fn):
